@@ -8,10 +8,9 @@ TOK = SYM('tokens')
 
 def _get_term(v):
     """v is app(cloned,(app(get,(tokens, C(k))),)) -> k"""
-    if v[0] == 'app' and v[1].endswith('::cloned') and len(v[2]) == 1:
-        g = v[2][0]
-        if g[0] == 'app' and (g[1].endswith('::get') or '::get::' in g[1]) and len(g[2]) == 2 and g[2][0] == TOK and g[2][1][0] == 'c':
-            return g[2][1][1]
+    g = v[2][0] if (v[0] == 'app' and v[1].endswith('::cloned') and len(v[2]) == 1) else v
+    if g[0] == 'app' and (g[1].endswith('::get') or '::get::' in g[1]) and len(g[2]) == 2 and g[2][0] == TOK and g[2][1][0] == 'c':
+        return g[2][1][1]
     return None
 
 
